@@ -164,8 +164,8 @@ def run_kernel(k, fns, wrapping, fields, budget):
                       (r"TooDee::<T>::data(_mut)?$|TooDeeViewCommon<T>>::data$|::data(_mut)?$", data_model)] + mirsmt.STD_MODELS
             ex = ExecB(fns, wrapping, models)
             st = mirsmt.State(sym, wrapping)
+            kernels.tup_order[0] = fields
             if getattr(k, "needs_state", False):
-                kernels.tup_order[0] = fields
                 st.roots = {"self": args[0]}
             outcomes = ex.run(name, st, args)
         except Unsupported as e:
